@@ -4,7 +4,7 @@ from __future__ import annotations
 
 import random
 
-from cvf import circuit_check
+from cvf import circuit_check, families
 from checks import C01
 
 PROPERTY = "C02"
@@ -94,6 +94,8 @@ def cases(tier, seed):
         for c in pipes + hand + rg:
             for s in sems_for(c):
                 out.append({"circuit": c, "semiring": s})
+        for i, c in enumerate(families.random_members(seed + 1000, 160)):
+            out.append({"circuit": c, "semiring": sems[i % 3]})
     return out
 
 
